@@ -5,4 +5,18 @@ OUT=${OUT:-/tmp/benign_cross}; mkdir -p $OUT; rm -f $OUT/*.txt
   for r in $EXTRA; do for f in $r/*/out/*.patch.diff; do p=$(basename $(dirname $(dirname $f))); v=$(basename $f .patch.diff); echo "$p-$v@$(basename $r) $f"; done; done ) | \
 while read id f; do for q in C03 C04 C05 C06 C07 C09 C10 C11 C12 C13 C14 C15 C16 C17 C18 C20; do echo "$id $f $q"; done; done | \
 xargs -P 14 -L 1 bash -c 'r=$(/venv/bin/python /verif/tools/benign_eval.py $1 $2 2>/dev/null | head -4); case "$r" in silent*) ;; *) echo "$0 under $2: $r" > '$OUT'/$0.$2.txt;; esac'
-cat $OUT/*.txt 2>/dev/null | grep -c under
+/venv/bin/python - "$OUT" <<'PY'
+import glob, json, os, sys
+out = sys.argv[1]
+V = os.path.dirname(os.path.dirname(os.path.abspath("/verif/tools/benign_cross.sh")))
+own = json.load(open("/verif/benign/UNDECIDED.json")); cross = json.load(open("/verif/benign/UNDECIDED_CROSS.json"))
+bad = 0
+for f in sorted(glob.glob(os.path.join(out, "*.txt"))):
+    head = open(f).readline().strip()
+    name, _, rest = head.partition(" under ")
+    prop, _, verdict = rest.partition(": ")
+    listed = verdict == "ANALYSIS-ERROR" and ((name in own and name.split("-")[0] == prop) or ("%s@%s" % (name, prop)) in cross)
+    print(("listed   " if listed else "ATTENTION") + " " + head)
+    bad += 0 if listed else 1
+print("not silent and not listed:", bad)
+PY
